@@ -1,6 +1,8 @@
-import CaoProofs.Lemmas.OpenAddr
-import CaoProofs.Lemmas.OpenAddrRefine
+import CaoProofs.Props.C02
+import CaoProofs.Props.C05
+import CaoProofs.Props.C07
 import CaoProofs.Props.C12
 import CaoProofs.Props.C13
 import CaoProofs.Props.C14
+import CaoProofs.Props.C16
 import CaoProofs.Props.C19
